@@ -183,10 +183,13 @@ package reftable
 //@   ensures[same-length] fits ==> len(k2) == len(key) && vval(buf) <= len(key)
 //@   ensures[same-character-at-every-position] fits && 0 <= i && i < len(key) ==> k2[i] == key[i]
 
+// cps names the result of commonPrefixSize (a function of the two strings; definitional)
+//@ spec cps(a string, b string) int
 //@ func commonPrefixSize
 //@   props C14 C01
 //@   pure
 //@   nopanic
+//@   assumes[names-the-result] result == cps(a, b)
 //@   ensures[bounds] 0 <= result && result <= len(a) && result <= len(b)
 //@   ensures[common] forall k int :: 0 <= k && k < result ==> a[k] == b[k]
 //@   ensures[maximal] result < len(a) && result < len(b) ==> a[result] != b[result]
@@ -1680,6 +1683,16 @@ package reftable
 //@   ensures[keeps-given-hashes] istype(rec, *LogRecord) ==> (old(asptr(rec, *LogRecord).Old) != nil || old(logIsDel(asptr(rec, *LogRecord))) ==> asptr(rec, *LogRecord).Old == old(asptr(rec, *LogRecord).Old)) && (old(asptr(rec, *LogRecord).New) != nil || old(logIsDel(asptr(rec, *LogRecord))) ==> asptr(rec, *LogRecord).New == old(asptr(rec, *LogRecord).New))
 
 // trusted: records object ids for the object index (map contents are not tracked)
+// C11, writer side of the object index: the length to which object ids are cut (ObjectIDLen) exceeds the common
+// prefix of every two neighbours of the sorted id list, so no two ids share a truncated key and every id gets its own
+// index record. Loop 2 computes the maximum over ALL neighbouring pairs (invariant); the first clause of loop 3 is an
+// entry-only assertion (it is vacuous once the loop has started: flushBlock's frame covers the statistics).
+//@ func (*Writer).dumpObjectIndex
+//@   provesonly
+//@   props C11
+//@   loop 2 invariant[max-over-all-neighbours-so-far] -1 <= rangeindex && rangeindex < len(strs) && maxCommon >= 0 && maxCommon < 9223372036854775807 && (rangeindex >= 0 ==> last == strs[rangeindex]) && (forall i int :: 1 <= i && i <= rangeindex ==> cps(strs[i-1], strs[i]) <= maxCommon)
+//@   loop 3 invariant[object-id-length-separates-all-neighbours] rangeindex == -1 ==> (forall i int :: 1 <= i && i < len(strs) ==> cps(strs[i-1], strs[i]) < w.Stats.ObjectIDLen)
+
 //@ func (*Writer).indexHash
 //@   trusted
 //@   modifies nothing
